@@ -22,6 +22,7 @@ import (
 	"os/exec"
 	"regexp"
 	"runtime"
+	"runtime/pprof"
 	"sort"
 	"strings"
 	"sync"
@@ -1993,12 +1994,7 @@ func c19FindCLI() map[string]string {
 				}
 			}
 		}
-		if p != "" { // must actually work
-			if o, e := c19RunCLI(p, nil); e != nil && len(o) == 0 {
-				// empty input: zstd/lz4/gzip differ in exit status; probe with a real frame below
-			}
-		}
-		m[t] = p
+		m[t] = p // probed with a real frame by the caller
 	}
 	return m
 }
@@ -2011,6 +2007,11 @@ func TestVerifC19(t *testing.T) {
 	}
 	thorough := ev.Thorough()
 	r := ev.New("C19", "exploration")
+	if p := os.Getenv("VERIF_C19_CPUPROFILE"); p != "" { // debugging aid only
+		f, _ := os.Create(p)
+		pprof.StartCPUProfile(f)
+		defer pprof.StopCPUProfile()
+	}
 	h := &c19H{r: r, workers: ev.Workers(), counts: map[string]int64{}, outcome: map[string]int64{}, info: map[string][]any{}}
 	h.cur = make([]atomic.Pointer[c19Running], h.workers+1)
 	go h.watchdog(10 * time.Minute)
@@ -2199,5 +2200,6 @@ func TestVerifC19(t *testing.T) {
 	r.Sample(map[string]any{"hostile_mutation": c19Art{Kind: "hostile", Codec: int(bases[0].codec), Base: &bases[0].art, Op: "subst", Pos: 3, Val: 0x80}})
 	r.Sample(map[string]any{"craft": crafts[len(crafts)/2].Name, "bytes": len(crafts[len(crafts)/2].In)})
 	r.Sample(map[string]any{"enum_form": c19Forms()[20].name, "prefix_hex": hex.EncodeToString(c19Forms()[20].pre)})
+	pprof.StopCPUProfile()
 	os.Exit(r.Write())
 }
